@@ -361,7 +361,7 @@ def replay(ctx, rec):
 
 
 def run(ctx):
-    g = gen(ctx)
+    g = ctx.guard("regenerate", gen, ctx)
     ok = ctx.lean_build(PROP_MODS)
     if ok:
         ctx.lean_audit(PROP_MODS, SRC_MODS)
@@ -369,7 +369,7 @@ def run(ctx):
             ctx.leanchecker(PROP_MODS)
     for phase in (corr_substitute, lambda c: corr_pipeline(c, g), lambda c: validate_traces(c, g), lambda c: run_edges(c, g),
                   random_polys, pointwise_maps):
-        phase(ctx)
+        ctx.guard(getattr(phase, "__name__", "g-phase"), phase, ctx)
         ctx.log("phase done: %s" % getattr(phase, "__name__", "g-phase"))
     ctx.rule = ("substitution correspondence: seeded sparse Gaussian-integer 6x6 matrices x integer/Gaussian polynomials of degree <= 4 "
                 "(non-trivial: >= 2 terms and a matrix row with >= 2 entries); pipeline histories: seeded get_hamiltonian sequences on the live "
